@@ -32,7 +32,12 @@ func (r *ComDoc) readDir() error {
 	raw := make([]RawDirEnt, count)
 	cooked := make([]DirEnt, count)
 	rootIndex := -1
+	visited := 0
 	for sector := r.Header.DirNextSector; sector >= 0; sector = r.SAT[sector] {
+		// a chain can't be longer than the table it is threaded through
+		if visited++; visited > len(r.SAT) {
+			return errors.New("directory sector chain is cyclic")
+		}
 		if err := r.readSectorStruct(sector, raw); err != nil {
 			return err
 		}
